@@ -75,5 +75,6 @@ func handlePanic() {
 		fmt.Println("Recovered from panic:")
 		fmt.Println(r)
 		debug.PrintStack()
+		os.Exit(2)
 	}
 }
